@@ -2,6 +2,8 @@
 link helper kinds, a key join) followed by one or two SaveLoad steps, and checks SaveLoad is the identity on the abstract
 state; each composition is built with real objects, serialised with GlueSerializer and restored with GlueUnSerializer, and the
 observable projection compared before/after (E1). A loud failure at save time is allowed and counted."""
+import json
+
 from harness import tlc, core
 from harness.tlaval import to_json
 from harness.adapters import session as A
@@ -19,17 +21,22 @@ def run(ctx):
     ctx.cov['state_classes_without_factory'] = k['state_classes_without_factory']
     with tlc.Workdir() as wd:
         wd.write('Session_Gen.tla', '---- MODULE Session_Gen ----\ng_SelKinds == %s\ng_LinkKinds == %s\n====\n' % (_tla_set(k['sel']), _tla_set(k['links'])))
-        gcfg = 'GEN_Session_quick.cfg' if quick else 'GEN_Session_thorough.cfg'
-        res, g = tlc.dump_graph(wd, 'MC_Session.tla', gcfg, timeout=6000)
-        ctx.add_tlc('E0+E1 generation ' + gcfg, res, gcfg)
-        items = []
-        for p in g.behaviours():
-            sts = [g.state(n) for n in p]
-            acts = [to_json(s['act']) for s in sts[1:]]
-            if not acts or acts[-1]['op'] != 'SaveLoad':
-                continue
-            items.append({'shape': str(sts[0]['shape']), 'steps': [{'act': a} for a in acts]})
-        del g
+        items, seen = [], set()
+        for gcfg in (['GEN_Session_quick.cfg'] if quick else ['GEN_Session_thorough.cfg', 'GEN_Session_pairs.cfg', 'GEN_Session_two.cfg']):
+            res, g = tlc.dump_graph(wd, 'MC_Session.tla', gcfg, timeout=6000)
+            ctx.add_tlc('E0+E1 generation ' + gcfg, res, gcfg)
+            for p in g.behaviours():
+                sts = [g.state(n) for n in p]
+                acts = [to_json(s['act']) for s in sts[1:]]
+                # keep the path up to its last SaveLoad (what follows a restore is only observable through another one)
+                while acts and acts[-1]['op'] != 'SaveLoad':
+                    acts.pop()
+                key = (str(sts[0]['shape']), json.dumps(acts, sort_keys=True))
+                if not acts or key in seen:
+                    continue
+                seen.add(key)
+                items.append({'shape': str(sts[0]['shape']), 'steps': [{'act': a} for a in acts]})
+            del g
     # 1-d only kinds get their own single-kind sessions
     for kind in k['sel_1d_only']:
         for tree in ({'op': 'leaf', 'a': kind, 'b': '-'}, {'op': 'not', 'a': kind, 'b': '-'}):
